@@ -5,4 +5,5 @@ From Coq Require Import ZArith QArith List Extraction ExtrOcamlBasic.
 From Inf Require Import base.ExtrBase gen.ParamsC16 model.VelM.
 Extraction Language OCaml.
 Extraction "extract/c16_model.ml" extr_anchor modify_std_stream modify_ase_stream modify_file_stream beta_of kb_engine
-  kinetic mom_col sumQ nq use_zm ase_lib_kB handed zm_of.
+  kinetic mom_col sumQ nq use_zm ase_lib_kB handed zm_of
+  seq_results std_call ase_call.
